@@ -34,6 +34,7 @@ Arguments NLCont {R}.
 Arguments NLBrk {R}.
 
 Definition error : Type := option (list N).     (* nil = None *)
+Definition err_is_nil (e : error) : bool := match e with None => true | Some _ => false end.   (* e == nil *)
 
 (* ---------------------------------------------------------------- fixed width *)
 Definition wrap (k : N) (x : N) : N := N.modulo x (N.pow 2 k).            (* x mod 2^k *)
@@ -74,6 +75,9 @@ Definition runtime_GOOS : list N := [108; 105; 110; 117; 120]%N.   (* "linux" *)
 Definition os_ModeType : N := 2401763328.
 Definition os_ModeDir : N := 2147483648.
 Definition os_ModeSymlink : N := 134217728.
+
+(* os.FileMode.IsDir: m&ModeDir != 0 *)
+Definition FileMode_IsDir (m : N) : bool := negb (N.eqb (N.land m os_ModeDir) 0).
 
 Fixpoint strings_HasPrefix (s pre : list N) : bool :=
   match pre, s with
